@@ -71,6 +71,13 @@ def symbols(n, nsites, dseed, pdiff):
     saturated ones gives site likelihoods hundreds of orders of magnitude apart)"""
     rng = random.Random(dseed)
     cols = []
+    if isinstance(pdiff, dict):
+        # every column is constant except at the last `tail` taxa (the last to join in a caterpillar, one side of the
+        # root otherwise): an invariant-sites class keeps probability one over the large conserved part of the tree
+        for k in range(nsites):
+            base = rng.choice("ACGT")
+            cols.append([base if i < n - pdiff["tail"] else rng.choice([x for x in "ACGT" if x != base]) for i in range(n)])
+        return cols
     for k in range(nsites):
         pd = pdiff[k % len(pdiff)] if isinstance(pdiff, list) else pdiff
         base = rng.choice("ACGT")
@@ -90,7 +97,9 @@ def model_q(m):
 def site_cats(s):
     if s["kind"] == "constant":
         return sitecat.categories("constant")
-    return sitecat.categories("weibull", s["K"], s["shape"])
+    if s["kind"] == "invariant":
+        return sitecat.categories("invariant", pinv=s["pinv"])
+    return sitecat.categories("weibull", s["K"], s["shape"], s.get("pinv"))
 
 
 class Ref:
@@ -132,9 +141,11 @@ class Ref:
                     Pc[kr] = self._expm(Q, kr)
                 x = (Pc[kl] @ part[l]) * (Pc[kr] @ part[r])
                 mx = x.max(0)
+                mx = np.where(mx > 0, mx, 1.0)  # a zero-rate class has probability exactly 0 at a variable site
                 part[node] = x / mx
                 logs = logs + np.log(mx)
-            cat.append(np.log(pi @ part[self.topo.root]) + logs)
+            with np.errstate(divide="ignore"):
+                cat.append(np.log(pi @ part[self.topo.root]) + logs)
         x = np.array(cat) + np.log(self.probs)[:, None]
         mx = x.max(0)
         ll = mx + np.log(np.exp(x - mx).sum(0))
@@ -193,8 +204,14 @@ def build(c, n, ref, lengths, tip="noamb"):
     names = ["t%d" % i for i in range(n)]
     taxa = {"id": "taxa", "type": "Taxa", "taxa": [{"id": x, "type": "Taxon"} for x in names]}
     s = c["site"]
-    site = {"id": "site", "type": "ConstantSiteModel"} if s["kind"] == "constant" else {
-        "id": "site", "type": "WeibullSiteModel", "categories": s["K"], "shape": tt.P("shape", [s["shape"]])}
+    if s["kind"] == "constant":
+        site = {"id": "site", "type": "ConstantSiteModel"}
+    elif s["kind"] == "invariant":
+        site = {"id": "site", "type": "InvariantSiteModel", "invariant": tt.P("pinv", [s["pinv"]])}
+    else:
+        site = {"id": "site", "type": "WeibullSiteModel", "categories": s["K"], "shape": tt.P("shape", [s["shape"]])}
+        if "pinv" in s:
+            site["invariant"] = tt.P("pinv", [s["pinv"]])
     spec = {"id": "like", "type": "TreeLikelihoodModel",
             "tree_model": {"id": "tree", "type": "UnRootedTreeModel", "newick": ref.topo.newick(names), "taxa": taxa, "branch_lengths": tt.P("bl", lengths)},
             "site_model": site, "substitution_model": subst_spec(c["model"]),
@@ -420,6 +437,41 @@ def batched_first_body(c):
     return res
 
 
+@st.composite
+def invariant_tail_case(draw):
+    c = draw(base_case(bands=["far"]))
+    c["site"] = draw(st.sampled_from([{"kind": "invariant", "pinv": 0.2}, {"kind": "invariant", "pinv": draw(fl(0.01, 0.9))},
+                                      {"kind": "weibull", "K": 4, "shape": draw(st.sampled_from([0.5, 2.0])), "pinv": draw(fl(0.05, 0.6))}]))
+    c["pdiff"] = {"tail": draw(st.integers(1, 3))}
+    c["palette"] = [draw(logu(0.3, 1.5)) for _ in range(draw(st.integers(1, 2)))]
+    c["n"] = draw(st.integers(600, 1600))
+    c["shape"] = draw(st.sampled_from(["caterpillar", "caterpillar", "balanced", "random"]))
+    c["force_rescale"] = draw(st.booleans())
+    return c
+
+
+def invariant_tail_body(c):
+    """a zero-rate class next to ordinary ones on a tree whose large conserved part makes the ordinary classes underflow:
+    the value, and its re-evaluation with rescaling on, equal the reference"""
+    n = c["n"]
+    ref = Ref(c, n)
+    lengths = lengths_for(n, c["palette"], 1.0, c["lseed"])
+    total, sites = ref.loglik(lengths)
+    res = Res(nontrivial=float(min(sites)) <= -700.0, key=("invariant_tail", c["shape"], c["model"]["name"], str(c["site"]), n, c["pdiff"]["tail"], c["dseed"] % 1000, c["tip"], c["force_rescale"]),
+              labels=(c["shape"], c["site"]["kind"], c["tip"], "forced" if c["force_rescale"] else "auto"),
+              tags={"model": c["model"]["name"], "band": "far", "shape": c["shape"], "tip": c["tip"], "site": c["site"]["kind"], "zero_rate_class": True})
+    if not np.isfinite(total):
+        raise AssertionError("harness: reference not finite")
+    dic = build(c, n, ref, lengths, c["tip"])
+    like = dic["like"]
+    if c["force_rescale"]:
+        like.rescale = True
+    if _cmp(res, like(), total, "first evaluation", n=n, min_site_loglik=float(min(sites)), rescale_after=bool(like.rescale)):
+        dic["bl"].tensor = dic["bl"].tensor.clone()
+        _cmp(res, like(), total, "second evaluation", n=n, min_site_loglik=float(min(sites)), rescale_after=bool(like.rescale))
+    return res
+
+
 def audit_body(c):
     """numpy log-scaler pruning vs 40-digit mpmath pruning (harness self-audit)"""
     n = c.get("n") or aim_n(c)
@@ -466,6 +518,7 @@ def subchecks(tier):
         Sub("single", body, strategy=base_case, quick=48, thorough=1500, pretags=pretags),
         Sub("history", history_body, strategy=history_case, quick=16, thorough=400, pretags=pretags),
         Sub("batched_first", batched_first_body, strategy=batched_first_case, quick=24, thorough=600, pretags=pretags),
+        Sub("invariant_tail", invariant_tail_body, strategy=invariant_tail_case, quick=16, thorough=400, pretags=lambda c: dict(pretags(c), zero_rate_class=True)),
         Sub("band_sweep", body, enumerate=sweep_cases, exhaustive=(tier == "thorough"), pretags=pretags),
         Sub("audit_oracle", audit_body, strategy=lambda: base_case(bands=["above_normal", "subnormal"]), quick=4, thorough=48),
     ]
